@@ -170,11 +170,22 @@ def run_tlc(spec, cfg, env=None, workers=None, timeout=3600, extra=(),
 # ------------------------------------------------------------- known findings
 
 def load_findings(prop):
-    if not os.path.exists(FINDINGS_FILE):
-        return []
-    with open(FINDINGS_FILE) as f:
-        data = json.load(f)
-    return [x for x in data.get("findings", []) if x["property"] == prop]
+    '''Known findings of a property: entries of known_findings.json plus the
+    per-property files findings.d/<prop>.json (a JSON list of entries
+    {"property","id","what","match","witness"}).  Read-only at run time.'''
+    res = []
+    if os.path.exists(FINDINGS_FILE):
+        with open(FINDINGS_FILE) as f:
+            data = json.load(f)
+        res += [x for x in data.get("findings", []) if x["property"] == prop]
+    path = os.path.join(VERIF, "findings.d", prop + ".json")
+    if os.path.exists(path):
+        with open(path) as f:
+            data = json.load(f)
+        if isinstance(data, dict):
+            data = data.get("findings", [])
+        res += [x for x in data if x.get("property", prop) == prop]
+    return res
 
 
 class Outcome:
